@@ -398,6 +398,7 @@ func genSearchable() {
 		if fd == nil {
 			return
 		}
+		found := 0
 		ast.Inspect(fd.Body, func(n ast.Node) bool {
 			cc, ok := n.(*ast.CaseClause)
 			if !ok || len(cc.Body) != 1 {
@@ -413,16 +414,17 @@ func genSearchable() {
 			}
 			switch litOrName(as.Rhs[0]) {
 			case "=", "sqlparser.EqualStr":
-				eq = names
+				eq = append(eq, names...)
 			case "<>", "sqlparser.NotEqualStr":
-				ne = names
+				ne = append(ne, names...)
 			default:
 				fail("%s: ChangeSearchableOperator assigns unexpected operator %s", rel, litOrName(as.Rhs[0]))
 			}
+			found++
 			return true
 		})
-		if len(eq) == 0 || len(ne) == 0 {
-			fail("%s: ChangeSearchableOperator: case lists not found", rel)
+		if found == 0 {
+			fail("%s: ChangeSearchableOperator: no `case …: expr.Operator = …` clauses found", rel)
 		}
 		return
 	}
